@@ -612,5 +612,6 @@ func runC19(c *Ctx) {
 	c19Reducers(c)
 	c19Loop(c)
 	c19Timelines(c)
+	c19Retune(c)    // T6 raised / lowered on the live connection (c19_retune.go)
 	c19WriteFail(c) // probes / dead-link drop after a data send whose transport write failed (c19_writefail.go)
 }
